@@ -141,28 +141,36 @@ Definition rres_image (orc : Z -> Z -> pixel) (r : rres) : option img :=
   | RError => None          (* not reachable with default="none" *)
   end.
 
-(* walk_callback on the tile store; None = the callback raised *)
-Definition walk_callback_gen (u : mode -> pixel -> pixel -> pixel) (dflt : fmt) (k : Z)
+(* walk_callback on the tile store; None = the callback raised.
+   [keep_stale = false] is the code as it is (merge.py:182-191): when none of the four
+   children exists, a tile file already present at p (left by an earlier cascade) is
+   unlinked.  [keep_stale = true] is the code before that repair: it returned without
+   touching the store. *)
+Definition walk_callback_var (keep_stale : bool) (u : mode -> pixel -> pixel -> pixel) (dflt : fmt) (k : Z)
            (orc : pos -> Z -> Z -> pixel) (st : store) (p : pos) : option store :=
   let cs := map (fun c => rres_image (orc c) (read_image dflt st c DNone None None)) (children p) in
   match merge_tiles_gen u dflt k cs with
   | None => None
-  | Some None => Some st
+  | Some None => Some (if keep_stale then st else st_set st p dflt None)
   | Some (Some m) => write_image dflt st p m None
   end.
 
+Definition walk_callback_gen := walk_callback_var false.
+
 (* Pyramid.walk calls the callback once per position of [order]
    (C01/C13: a children-first enumeration of the live parents) *)
-Fixpoint cascade_gen (u : mode -> pixel -> pixel -> pixel) (dflt : fmt) (k : Z)
+Fixpoint cascade_var (keep_stale : bool) (u : mode -> pixel -> pixel -> pixel) (dflt : fmt) (k : Z)
          (orc : pos -> Z -> Z -> pixel) (st : store) (order : list pos) : option store :=
   match order with
   | [] => Some st
   | p :: rest =>
-      match walk_callback_gen u dflt k orc st p with
+      match walk_callback_var keep_stale u dflt k orc st p with
       | None => None
-      | Some st' => cascade_gen u dflt k orc st' rest
+      | Some st' => cascade_var keep_stale u dflt k orc st' rest
       end
   end.
+
+Definition cascade_gen := cascade_var false.
 
 Definition walk_callback := walk_callback_gen upd_px.
 Definition cascade := cascade_gen upd_px.
@@ -239,6 +247,12 @@ Definition valid_order (u : mode -> pixel -> pixel -> pixel) (dflt : fmt) (k : Z
 (* no tile files above the start level before the cascade *)
 Definition upper_levels_empty (dflt : fmt) (st0 : store) (start : nat) : Prop :=
   forall p, (pn p < start)%nat -> st0 p dflt = None.
+
+(* re-cascade of a directory that already holds tiles above the start level: the walk
+   must also come by every position where such a tile lies (an unfiltered walk visits
+   every position above the start level) *)
+Definition covers_present (dflt : fmt) (st0 : store) (start : nat) (order : list pos) : Prop :=
+  forall p, (pn p < start)%nat -> st0 p dflt <> None -> In p order.
 
 (* compact description of the placement, used by the correspondence to expand
    the model in numpy: for child i = 0..3 the resolved row and column indexers
